@@ -18,6 +18,38 @@ CLAIMED = {
   text="Bounded model checking of the real code: every ObsFcstBased metric (7 with all 18 aggregator choices, 13 without), Within, Conditional, XConditional, Count on 0..2/3 symbolic pairs (finite or NaN); per path z3 proves result == literature definition on the valid pairs, undefined -> non-finite, perfect forecast -> perfect_score, nothing better than perfect_score. rankcorr/kendallcorr: guards and argument flow only (SciPy is a stub).",
   note="Trusted: symx value model and validated NumPy models (mean/std/percentile/sort/corrcoef); exp/log uninterpreted. Non-linear metrics are bounded one pair lower. Outside: IEEE rounding, vectors above the bound, SciPy rank statistics.",
   ref="3 C05"),
+ "C01": dict(
+  text="Bounded model checking of the real Data.__init__/get_scores/_get_score/_apply_axis: 2 (thorough 3) in-memory inputs (+ variants: an input without observations, a climatology, an input with extra/reordered coverage) whose every obs/fcst/other cell is a symbolic real-or-NaN; for 5 field sets x 9-11 axis slices z3 proves on every feasible path that each input returns exactly the cases where every input has every requested quantity, in storage order with the stored values, that an obs-less input gets the shared obs, and that another input's forecast values never matter.",
+  note="Trusted: symx value/array model, validated NumPy models. Inputs are in-memory Input objects (readers: C09/C10). Outside: more inputs/cells than the bound; +-inf literals (C04).",
+  ref="3 C01"),
+ "C02": dict(
+  text="Bounded model checking of Data._get_common_indices and the index selection in _get_score with *symbolic coordinates*: location ids, lead times (incl. NaN) and times of two inputs are arbitrary symbolic values in any order with duplicates (2+2, 2+1; thorough 3+3, 3+2); per path z3 proves the verified coordinates are the ascending NaN-free common values, every cell is the one the input stores at the first index holding that coordinate, an empty intersection exits with an error, swapping inputs swaps columns; plus all permutations of 3 dimension entries leave scores unchanged.",
+  note="Trusted: symx models of sort/unique/intersect1d/isin (validated); calendar model for symbolic times. Outside: text-row keyed storage (C09), sizes above the bound.",
+  ref="3 C02"),
+ "C03": dict(
+  text="Bounded model checking of Data.__init__ subsetting: 2-3 stations with symbolic lat/lon/elev and every subset of {latrange, lonrange, elevrange, -l, -lx} with symbolic values; 3 symbolic init times around a year end with every subset of {-t, -d, -tod}; symbolic lead times with -o; -obsrange with symbolic end points. Oracle = the set-builder expression of the statement (inclusive bounds, -lx last, UTC calendar day, whole hours); empty selection => error exit or only NaN.",
+  note="Trusted: symx models incl. calendar model and the linear-search set shadow. The option->argument wiring of the driver is decided in C13. Outside: more stations/times than the bound; coordinates outside [-90,90]x[-180,180].",
+  ref="3 C03"),
+ "C04": dict(
+  text="Bounded model checking: Text._clean on a symbolic token (value, NaN, not-a-number flag); util.clean on a symbolic masked NetCDF variable (mask, NaN, -999, >1e30, +-inf per cell); and, through Data + Metric.compute for 9 metrics x 3-4 axes on 2 inputs with real/NaN/+inf cells, score == score of the same data with the missing cases deleted, all-missing slice => NaN, never an exception.",
+  note="Trusted: symx models; the netCDF4 variable is a stub (values + mask). Probabilistic fields with missing values are decided in C08. Outside: on-disk fill values, sizes above the bound.",
+  ref="3 C04"),
+ "C11": dict(
+  text="Bounded model checking of every compute_from_times/compute_from_leadtimes in verif/axis.py on one symbolic instant (any second) inside day windows around year ends and leap days (thorough: every day 1970-2100, the day number concretised by solver-driven forking, the second of day symbolic), of the partition of valid cases by every axis through Data on symbolic init times around 2023-12-31, and of the date/unixtime/datenum round trips for symbolic dates.",
+  note="Trusted: the calendar model (86400 s days; civil fields of a concrete day from the real datetime; date2num = days since 1970-01-01). Outside: leap seconds, times before 1970 for unixtime routes, strftime labels.",
+  ref="3 C11"),
+ "C14": dict(
+  text="Bounded model checking of the climatology branch of Data.get_scores: 1-2 inputs + climatology (also with reordered/extra coverage), subtract and divide; per cell z3 proves obs/fcst anomalies use the climatology forecast at the same coordinates, other fields are untouched, a case is present only if defined and never a non-finite number, identical cases for all inputs, the climatology is not a scored input/legend entry; and mae/rmse/bias/stderror under -c equal those with the climatology as an extra input.",
+  note="Trusted: symx models. Outside: sizes above the bound; -c/-C parsing (C13).",
+  ref="3 C14"),
+ "C15": dict(
+  text="Bounded model checking of all 14 aggregator classes + quantile levels along every axis of vectors (1..3/4) and 2x2(x2) arrays against textbook statistics; preaggregate_leadtime/_time on 3-4 grid points with symbolic spacing and symbolic window against the trailing-window definition (l-h, l]; and -T through Data for obs, fcst, ensemble members and ensemble-derived threshold/quantile fields.",
+  note="Trusted: symx NumPy models (mean/median/percentile/std/sort), validated against NumPy. Outside: float32 rounding of the window array, unsorted grids, arrays above the bound.",
+  ref="3 C15"),
+ "C18": dict(
+  text="Bounded model checking over request histories: every sequence of 2 (thorough: 2 on a 10-request menu and 3 on one location) get_scores requests mixing single/multiple fields, axes All/No/Time/Location/Leadtime and both inputs, with and without -obsrange, on 2 inputs with symbolic real-or-NaN cells; z3 proves on every path that the last result equals a freshly built dataset's, earlier returned arrays are unaltered (real NumPy aliasing is executed, not modelled), inputs are unmodified and a repeated request repeats its answer.",
+  note="Trusted: symx array model (views/aliasing are NumPy's own). Outside: longer histories, more cells.",
+  ref="3 C18"),
 }
 
 PENDING = {}
